@@ -57,6 +57,8 @@ class SW:
         self.dims = self.it.construct(prog.cls("DimensionSet"), [], dict(dim_list=[self.tdim] + self.ldims))
         self.shape = (n_t,) + tuple(LABEL_SIZES[l] for l in self.labels)
         self.layout = None          # "F": every stock array's values are a column-major (non-contiguous) view
+        self.cancel_first = False   # the first-year driver of the second item of the first label dimension is MINUS that of the first item
+        #                             (the labels cancel exactly in a total over the labels; each label on its own is not zero)
         self.tiny_label = False     # the driver of the SECOND item of the first label dimension is smaller by a factor eps^2 (eps: the
         #                             machine epsilon, an infinitesimal): a material traced in grams next to one traced in megatonnes
 
@@ -68,6 +70,9 @@ class SW:
         data = []
         for idx in itertools.product(*[range(s) for s in self.shape]):
             nm = f"{name}_{'_'.join(map(str, idx))}"
+            if self.cancel_first and len(idx) > 1 and idx[0] == 0 and idx[1] == 1:
+                data.append(-Rat.sym(f"{name}_{'_'.join(map(str, (0, 0) + idx[2:]))}", sign))
+                continue
             data.append(Rat.sym(nm, sign) * (S.eps_power(2) if self.tiny_label and len(idx) > 1 and idx[1] == 1 else 1))
             if dtype == "int":
                 S.INTEGER_SYMBOLS.add(nm)
